@@ -151,6 +151,18 @@ Second generation (class GenR; Gen/CommitmentPolicyGen.v): functions over struct
                (`v.into_iter().map(|h| h.0.to_hex()).collect::<Vec<_>>()`);
                `&mut self` methods of a struct without a value (`self.f = e;`, `self.map_field.insert(k, v);`): the
                updated record is the value of the generated function.
+  added for NodeState::apply_payments / htlc_fulfilled / is_forwarded_payment_prunable:
+               state-passing methods: a `&mut self` method of a struct the caller lists is `trap (result S)` (no value) or
+               `trap (result (S * bool))`; it cannot return errors (`?` and policy_err! are refused in it);
+               a local that stands for `&mut` a map entry of self: `let x = self.F.get_mut(&k).expect("..");`,
+               `let x = self.F.entry(k).or_insert_with(|| v);` (v only when the key is missing; the entry exists
+               afterwards), `if let Some(x) = self.F.get_mut(&k) { .. }`: x is a copy of the entry, and every update of
+               it (`x.f = e;`, `x.m(..);` for a translated `&mut self` method m without a value) is written back with
+               map_insert at once; conditionals and loops may hand on several variables (a tuple state,
+               `'(a, b) <-? ..`); associated functions `fn f(..)` of a struct (`S::f(..)`); struct values `S { f: e, .. }`
+               with all fields in order; `[e; n]` only inside an opaque call; `None` / `(None, None)` typed by what is
+               expected; `v.iter().filter(|h| <bool>).map(|h| h.f).min()` / `.max()` over a Vec<S> (min_of / max_of);
+               a logging macro as the last expression of a block; `trace_node_state!`.
   refused    : a Rust binder whose name the generated text uses itself (prof, warn, policy, Val, t<digits>, gen_.., ..), a
                `let` that shadows a variable in scope, `return`, `else`
                branches of statements, `match`, `&mut`, closures anywhere else, struct literals, everything not listed.
@@ -536,6 +548,9 @@ class P:
                 else:
                     tail = e
         self.eat("}")
+        if self.known is not None and tail is not None and tail[0] == "macro" and tail[1] in ("debug", "trace", "info", "warn", "error"):
+            stmts.append(("expr", tail))      # a logging macro as the last expression of a block: a statement of value ()
+            tail = None
         # a trailing assignment without `;` inside a loop body arrives as ("assign") already
         return stmts, tail
 
@@ -908,13 +923,35 @@ class P:
             if set(arms) != {"None", "Some"}:
                 raise GenError("only `match <option> { None => .., Some(x) => .. }` is inside the fragment")
             return ("match_val", scrut, arms["None"][1], arms["Some"][0], arms["Some"][1])
+        if v == "[" and k == "op" and self.known is not None:
+            # [e; n] : an array of n copies
+            self.eat("[")
+            e = self.expr()
+            self.eat(";")
+            n = self.expr()
+            self.eat("]")
+            return ("array_rep", e, n)
+        if k == "id" and self.known is not None and self.known.get(v, "").startswith("struct:") and self.peek(1)[1] == "{" \
+                and self.peek(2)[0] == "id" and self.peek(3)[1] == ":":
+            # S { f: e, .. } : a struct value
+            self.eat()
+            self.eat("{")
+            inits = []
+            while not self.at("}"):
+                f = self.eat(kind="id")
+                self.eat(":")
+                inits.append((f, self.expr()))
+                if self.at(","):
+                    self.eat(",")
+            self.eat("}")
+            return ("struct_lit", v, inits)
         if k == "id":
             self.eat()
             while self.at("::"):          # a path: its last segment, qualified by an integer type if there is one
                 self.eat("::")
                 nxt = self.eat(kind="id")
                 v = "%s::%s" % (v, nxt) if v in ("u32", "u64", "usize", "u128") \
-                    or (self.known is not None and (self.known.get(v, "").startswith("enum:") or self.known.get(v) == "path")) else nxt
+                    or (self.known is not None and (self.known.get(v, "").startswith(("enum:", "struct:")) or self.known.get(v) == "path")) else nxt
             if self.at("!"):              # macro invocation: (receiver, "tag", format arguments ...)
                 self.eat("!")
                 self.eat("(")
@@ -1796,6 +1833,9 @@ class GenR(Gen):
         self.validator_calls = {}         # method of a `dyn Validator` value -> (Gallina head, parsed fn, kind): translated
                                           #   methods of the validator the trait object is (kind "bool": legacy Result-as-bool)
         self.new_fns = {}                 # path -> (Gallina text, type) for constructors of empty values (Vec::new ..)
+        self.state_methods = set()        # (owner, name) of `&mut self` methods translated in state-passing style:
+                                          #   trap (result S) resp. trap (result (S * value)); they cannot return errors
+        self.aliases = {}                 # local -> (map field of self, key text, struct): a `&mut` into a map entry
 
     def coq_type(self, t):
         if t in WIDTH or t == "id":
@@ -1858,10 +1898,29 @@ class GenR(Gen):
         return x
 
     def tagged(self):
-        return self.cur["ret"] in ("result_unit", "result:id", "result:u64")
+        return bool(self.cur.get("as_state")) or self.cur["ret"] in ("result_unit", "result:id", "result:u64")
+
+    @staticmethod
+    def carry(vs):
+        """(value text, binder text) for the variables a statement hands on"""
+        if not vs:
+            return "tt", None
+        if len(vs) == 1:
+            return vs[0], vs[0]
+        return "(%s)" % ", ".join(vs), "'(%s)" % ", ".join(vs)
+
+    def set_field_of(self, sn, var, f, v):
+        pre = self.coq_struct[sn][1] if sn in self.coq_struct else sn
+        mk = (pre.rsplit(".", 1)[0] + ".mk_" + sn) if "." in pre else "mk_" + sn
+        return "(%s %s)" % (mk, " ".join("(%s)" % v if g == f else self.proj(sn, g, var) for g, _ in self.structs[sn]))
+
+    def writeback(self, x):
+        """after an update of the local x that stands for `&mut` a map entry: the entry of the map is replaced"""
+        fld, key, sn = self.aliases[x]
+        return "let self := %s in\n" % self.set_field(fld, "(map_insert %s %s %s)" % (self.proj(self.owner, fld, "self"), key, x))
 
     PRINTABLE = Gen.PRINTABLE + ("id", "opt_id", "vec_u32", "ext:LockTime", "ext:Version", "vec_id", "opt_u64", "opt_u32")   # {} / {:?} of a foreign value: assumed not to panic
-    LOGGING = ("debug", "trace", "info", "warn", "error", "dbgvals", "policy_log")
+    LOGGING = ("debug", "trace", "info", "warn", "error", "dbgvals", "policy_log", "trace_node_state")
 
     def proj(self, sn, f, c):
         pre = self.coq_struct[sn][1] if sn in self.coq_struct else sn
@@ -1888,7 +1947,7 @@ class GenR(Gen):
             return b, "(negb %s)" % c, "bool"
         if k == "var":
             x = e[1]
-            if x == "None" and want and want.startswith("opt:"):
+            if x == "None" and want and (want.startswith("opt:") or want in ("opt_u32", "opt_u64", "opt_id") or want.startswith("opt_struct:")):
                 return [], "None", want
             if x in env:
                 return [], x, env[x]
@@ -1923,7 +1982,30 @@ class GenR(Gen):
             if ft is None:
                 raise GenError("%s.%s: no such field, or its type is outside the fragment" % (sn, e[2]))
             return b, self.proj(sn, e[2], c), ft
+        if k == "struct_lit":
+            sn = e[1]
+            if sn not in self.structs or [f for f, _ in e[2]] != [f for f, _ in self.structs[sn]]:
+                raise GenError("struct value %s { .. } must initialise exactly the declared fields, in order" % sn)
+            bs, cs = [], []
+            for (f, ex), (_, ft) in zip(e[2], self.structs[sn]):
+                b, c, t = self.expr(ex, env, ft)
+                if t != ft:
+                    raise GenError("%s.%s: %s given, %s expected" % (sn, f, t, ft))
+                bs += b
+                cs.append("(%s)" % c)
+            pre = self.coq_struct[sn][1] if sn in self.coq_struct else sn
+            mk = (pre.rsplit(".", 1)[0] + ".mk_" + sn) if "." in pre else "mk_" + sn
+            return bs, "(%s %s)" % (mk, " ".join(cs)), "struct:" + sn
         if k == "tuple":
+            wants = want[6:].split(",") if want and want.startswith("tuple:") and len(want[6:].split(",")) == len(e[1]) else [None] * len(e[1])
+            bs, cs, ts = [], [], []
+            for x, w_ in zip(e[1], wants):
+                b, c, t = self.expr(x, env, w_)
+                bs += b
+                cs.append(c)
+                ts.append(t)
+            return bs, "(%s)" % ", ".join(cs), "tuple:" + ",".join(ts)
+        if k == "tuple_unused":
             bs, cs, ts = [], [], []
             for x in e[1]:
                 b, c, t = self.expr(x, env)
@@ -1949,7 +2031,19 @@ class GenR(Gen):
                     self.use_opaque(pname, pty)
                     return [], pname, pty
             if e[1] in self.new_fns and not e[2]:
-                return [], self.new_fns[e[1]][0], self.new_fns[e[1]][1]
+                code_, ty_ = self.new_fns[e[1]]
+                if ty_ == "empty":               # Map::new(), OrderedMap::new(): the type is the expected one
+                    if not (want and (want.startswith("map:") or want in ("set", "vec_id"))):
+                        raise GenError("%s() where no collection type is expected" % e[1])
+                    ty_ = want
+                return [], code_, ty_
+            if "::" in e[1] and tuple(e[1].split("::", 1)) in self.methods2 \
+                    and self.methods2[tuple(e[1].split("::", 1))]["selfmode"] == "free":
+                key_ = tuple(e[1].split("::", 1))
+                m2 = self.methods2[key_]
+                bs, cs = self.call_args(e[1], e[2], m2, env)
+                x = self.fresh()
+                return bs + [(x, " ".join(["gen_%s_%s prof" % key_] + self.pass_opaque(key_) + cs))], x, m2["ret"]
             if e[1] in self.opaque_fns:
                 pname, atys, rty = self.opaque_fns[e[1]]
                 if len(e[2]) != len(atys):
@@ -1999,6 +2093,22 @@ class GenR(Gen):
                     raise GenError("len of a %s" % tv)
                 return b, "(len_of %s)" % v, "usize"
             base = name.split("::<")[0]
+            if name in ("min", "max") and not args and recv[0] == "mcall" and recv[2] == "map" and recv[1][0] == "mcall" \
+                    and recv[1][2] == "filter" and recv[1][1][0] == "mcall" and recv[1][1][2] == "iter" and not recv[1][1][3]:
+                # v.iter().filter(|h| <bool over h>).map(|h| h.f).min() / .max() over a Vec<S>
+                b, v, tv = self.expr(recv[1][1][1], env)
+                cf, cm = recv[1][3], recv[3]
+                if tv.startswith("vec:") and len(cf) == 1 and len(cm) == 1 and cf[0][0] == "closure" and cm[0][0] == "closure" \
+                        and len(cf[0][1]) == 1 and len(cm[0][1]) == 1:
+                    hf, hm = cf[0][1][0], cm[0][1][0]
+                    env_f = dict(env); env_f[self.binder(hf, env=env)] = "struct:" + tv[4:]
+                    env_m = dict(env); env_m[self.binder(hm, env=env)] = "struct:" + tv[4:]
+                    bf, cfc, tf = self.expr(cf[0][2], env_f)
+                    bm, cmc, tm = self.expr(cm[0][2], env_m)
+                    if bf or bm or tf != "bool" or tm not in ("u32", "u64"):
+                        raise GenError("filter / map closures of types %s / %s (or that can panic) are outside the fragment" % (tf, tm))
+                    return b, "(%s_of (map (fun %s => %s) (filter (fun %s => %s) %s)))" % (name, hm, cmc, hf, cfc, v), "opt_" + tm
+                raise GenError(".iter().filter(..).map(..).%s() of this shape is outside the fragment" % name)
             if base == "sum" and not args:
                 # <map>.values()[.into_iter()].sum::<u64>() : the outcome is the same for every order of the values
                 r = recv
@@ -2275,8 +2385,8 @@ class GenR(Gen):
         """`e?` for the forms of e that are inside the fragment"""
         if self.pure:
             raise GenError("`?` inside a block used as a value is outside the fragment")
-        if getattr(self, "updated", False):
-            raise GenError("`?` after an update of a `&mut` parameter is outside the fragment")
+        if getattr(self, "updated", False) or self.cur.get("as_state"):
+            raise GenError("`?` after an update of a `&mut` parameter / in a state-passing function is outside the fragment")
         if not self.tagged():
             raise GenError("`?` in a function that does not return Result<(), _>")
         if inner[0] == "mcall" and inner[2] == "map_err" and len(inner[3]) == 1 and inner[3][0][0] == "closure" \
@@ -2418,6 +2528,9 @@ class GenR(Gen):
                 if tgt[0] == "field" and tgt[1] == ("var", "self") and self.cur.get("selfmode") == "mut":
                     out.append("self")
                     continue
+                if tgt[0] == "field" and tgt[1][0] == "var" and self.cur.get("as_state") and tgt[1][1] != "self":
+                    out.append("self")           # a field of a local that stands for `&mut` a map entry
+                    continue
                 if tgt[0] != "var":
                     raise GenError("assignment target %r is outside the fragment" % (tgt,))
                 out.append(tgt[1])
@@ -2427,6 +2540,10 @@ class GenR(Gen):
             elif s[0] == "expr" and s[1][0] == "mcall" and s[1][2] == "insert" and s[1][1][0] == "field" \
                     and s[1][1][1] == ("var", "self") and self.cur.get("selfmode") == "mut":
                 out.append("self")
+            elif s[0] == "expr" and s[1][0] == "mcall" and s[1][1][0] == "var" and self.is_alias_update(s[1]):
+                out.append("self")
+            elif s[0] == "let" and self.alias_source(s[3]) is not None and self.alias_source(s[3])[0] == "entry":
+                out.append("self")               # entry(k).or_insert_with(..) may add the entry
             elif s[0] == "iflet_err":
                 out += self.assigned2(s[3][0])
             elif s[0] in ("if_stmt",):
@@ -2439,6 +2556,8 @@ class GenR(Gen):
                 out += self.assigned2(s[4])
             elif s[0] == "iflet_stmt":
                 out += self.assigned2(s[3][0])
+                if self.alias_source(s[2]) is not None and self.assigned_alias(s[3][0], s[1]):
+                    out.append("self")
             elif s[0] == "match_opt":
                 out += self.assigned2(s[2][0]) + self.assigned2(s[4][0])
             elif s[0] == "iflet_tuple":
@@ -2466,8 +2585,8 @@ class GenR(Gen):
                         carried.append(v_)
             if kind == "iflet_err" or carried:
                 # the variable the branches assign is the value of the statement
-                if len(carried) > 1 or any(v_ not in env for v_ in carried) or any(blk[1] is not None for blk in blocks):
-                    raise GenError("a conditional that assigns more than one variable, or has a value, is outside the fragment")
+                if any(v_ not in env for v_ in carried) or any(blk[1] is not None for blk in blocks):
+                    raise GenError("a conditional that assigns an unknown variable, or has a value, is outside the fragment")
                 if kind == "iflet_err":
                     b, c, t = self.expr(s[2], env)
                     if t != "res_bool":
@@ -2480,12 +2599,13 @@ class GenR(Gen):
                     if t != "bool":
                         raise GenError("if on a non-boolean")
                     env_t = env
-                ret = "Val (OkR %s)" % carried[0] if carried else "Val (OkR tt)"
+                val_, pat_ = self.carry(carried)
+                ret = "Val (OkR %s)" % val_
                 self.depth += 1
                 then_t = self.stmts(blocks[0][0], env_t, lambda e2: ret)
                 else_t = self.stmts(blocks[1][0], env, lambda e2: ret) if len(blocks) > 1 else ret
                 self.depth -= 1
-                x = carried[0] if carried else self.fresh()
+                x = pat_ or self.fresh()
                 return self.emit_binds(b, "%s <-? (if %s\nthen (%s)\nelse (%s)) ;;\n%s" % (
                     x, c, then_t, else_t, self.stmts(rest, env, k)))
         if kind == "let":
@@ -2496,6 +2616,24 @@ class GenR(Gen):
                     raise GenError("a debugging guard bound to a pattern is outside the fragment")
                 self.guards.add(x)
                 return self.stmts(rest, {a: b for a, b in env.items() if a != x}, k)
+            src = self.alias_source(e) if isinstance(x, str) else None
+            if src is not None and src[0] in ("expect", "entry"):
+                if self.pure or ty is not None:
+                    raise GenError("a `&mut` into a map entry inside a value block is outside the fragment")
+                sn, kc, optv, fld = self.bind_alias(x, src, env)
+                self.binder(x, env=env)
+                self.rebound.add(x)
+                env2 = dict(env)
+                env2[x] = "struct:" + sn
+                self.aliases[x] = (fld, kc, sn)
+                if src[0] == "expect":
+                    return "%s <- expect_some %s ;;\n%s" % (x, optv, self.stmts(rest, env2, k))
+                bi, ci, ti = self.expr(src[3], env)
+                if ti != "struct:" + sn:
+                    raise GenError("or_insert_with(|| a %s) into a map of %s" % (ti, sn))
+                # the closure runs only when the key is missing; afterwards the entry exists
+                return "%s <- (match %s with\n| Some v_ => Val v_\n| None => (%s)\nend) ;;\n%s%s" % (
+                    x, optv, self.emit_binds(bi, "Val %s" % ci), self.writeback(x), self.stmts(rest, env2, k))
             if not isinstance(x, str) and e[0] == "iflet" and self.tagged() and not self.pure:
                 # let (a, b) = if let Some(p) = opt { stmts; value } else { value };  - the blocks may leave the function
                 b0, c0, t0 = self.expr(e[2], env)
@@ -2514,7 +2652,7 @@ class GenR(Gen):
                         raise GenError("a value block that assigns a variable of the enclosing block is outside the fragment")
 
                     def kk(env2):
-                        bb, cc, tt = self.expr(tail_, env2)
+                        bb, cc, tt = self.expr(tail_, env2, box.get("t"))
                         box.setdefault("t", tt)
                         if box["t"] != tt:
                             raise GenError("branches of type %s and %s" % (box["t"], tt))
@@ -2609,6 +2747,17 @@ class GenR(Gen):
                 if t != env[tgt[1]]:
                     raise GenError("%s: %s assigned a %s" % (tgt[1], env[tgt[1]], t))
                 return self.emit_binds(b, "let %s := %s in\n%s" % (tgt[1], c, self.stmts(rest, env, k)))
+            if tgt[0] == "field" and tgt[1][0] == "var" and tgt[1][1] in self.aliases and tgt[1][1] in env:
+                x_ = tgt[1][1]
+                sn = self.aliases[x_][2]
+                ft = dict(self.structs[sn]).get(tgt[2])
+                if ft is None:
+                    raise GenError("%s.%s: no such field, or its type is outside the fragment" % (x_, tgt[2]))
+                b, c, t = self.expr(rhs, env, ft)
+                if t != ft:
+                    raise GenError("%s.%s: %s assigned a %s" % (x_, tgt[2], ft, t))
+                return self.emit_binds(b, "let %s := %s in\n%s%s" % (
+                    x_, self.set_field_of(sn, x_, tgt[2], c), self.writeback(x_), self.stmts(rest, env, k)))
             if tgt[0] == "field" and tgt[1] == ("var", "self") and self.cur.get("selfmode") == "mut" and self.owner != self.validator:
                 ft = dict(self.structs[self.owner]).get(tgt[2])
                 if ft is None:
@@ -2648,8 +2797,8 @@ class GenR(Gen):
                 tagex = pp.expr()
                 if pp.peek()[0] != "eof":
                     raise GenError("policy tag %r is outside the fragment" % (args[1],))
-                if getattr(self, "updated", False):
-                    raise GenError("policy_err! after an update of a `&mut` parameter is outside the fragment")
+                if getattr(self, "updated", False) or self.cur.get("as_state"):
+                    raise GenError("policy_err! after an update of a `&mut` parameter / in a state-passing function is outside the fragment")
                 tag = self.tag_code(tagex, env)
                 fb = self.fmt_arg_binds(args[2:], env)       # the message is formatted before the filter is asked
                 x = self.fresh()
@@ -2670,6 +2819,25 @@ class GenR(Gen):
                         raise GenError("extend with the keys of a %s" % t_)
                     return self.emit_binds(b_, "let %s := set_extend %s (map_keys %s) in\n%s" % (x_, x_, c_, self.stmts(rest, env, k)))
                 raise GenError("update .%s(..) of %s is outside the fragment" % (e[2], x_))
+            if e[0] == "mcall" and e[1][0] == "var" and e[1][1] in self.aliases and e[1][1] in env \
+                    and (self.aliases[e[1][1]][2], e[2]) in self.methods2 and self.methods2[(self.aliases[e[1][1]][2], e[2])]["selfmode"] == "mut":
+                x_ = e[1][1]
+                sn = self.aliases[x_][2]
+                m2 = self.methods2[(sn, e[2])]
+                if m2["ret"] != "unit" or (sn, e[2]) in self.state_methods:
+                    raise GenError("%s.%s(..): only `&mut self` methods without a value are inside the fragment" % (x_, e[2]))
+                if len(e[3]) != len(m2["params"]):
+                    raise GenError("call of %s with %d arguments" % (e[2], len(e[3])))
+                bs, cs = [], []
+                for a_, (pn, pt) in zip(e[3], m2["params"]):
+                    b_, c_, t_ = self.expr(a_, env, pt)
+                    if t_ != pt:
+                        raise GenError("argument %s of %s: %s given, %s expected" % (pn, e[2], t_, pt))
+                    bs += b_
+                    cs.append(c_)
+                return self.emit_binds(bs, "%s <- %s ;;\n%s%s" % (
+                    x_, " ".join(["gen_%s_%s prof" % (sn, e[2])] + self.pass_opaque((sn, e[2])) + [x_] + cs),
+                    self.writeback(x_), self.stmts(rest, env, k)))
             if e[0] == "mcall" and e[2] == "insert" and len(e[3]) == 2 and e[1][0] == "field" and e[1][1] == ("var", "self") \
                     and self.cur.get("selfmode") == "mut" and self.owner != self.validator:
                 f_ = e[1][2]
@@ -2731,6 +2899,31 @@ class GenR(Gen):
         if kind == "iflet_stmt":
             # if let Some(x) = &opt { only logging } : dropped.  The block may bind the results of the listed helpers
             # (lazy iterators over the HTLC lists), which only the log lines consume.
+            src = self.alias_source(s[2])
+            if src is not None and src[0] == "get_mut":
+                # if let Some(x) = self.F.get_mut(&k) { .. } : x stands for the entry; its updates are written back
+                if self.pure or s[3][1] is not None:
+                    raise GenError("a `&mut` into a map entry inside a value block is outside the fragment")
+                sn, kc, optv, fld = self.bind_alias(s[1], src, env)
+                carried = []
+                for v_ in self.assigned2(s[3][0]) + (["self"] if self.assigned_alias(s[3][0], s[1]) else []):
+                    if v_ not in carried:
+                        carried.append(v_)
+                if any(c_ not in env for c_ in carried):
+                    raise GenError("an `if let` block that assigns an unknown variable is outside the fragment")
+                env_s = dict(env)
+                env_s[self.binder(s[1], env=env)] = "struct:" + sn
+                self.rebound.add(s[1])
+                saved_al = dict(self.aliases)
+                self.aliases[s[1]] = (fld, kc, sn)
+                val_, pat_ = self.carry(carried)
+                ret = "Val (OkR %s)" % val_
+                self.depth += 1
+                some_t = self.stmts(s[3][0], env_s, lambda e2: ret)
+                self.depth -= 1
+                self.aliases = saved_al
+                return "%s <-? (match %s with\n| None => %s\n| Some %s => (%s)\nend) ;;\n%s" % (
+                    pat_ or self.fresh(), optv, ret, s[1], some_t, self.stmts(rest, env, k))
             b, c, t = self.expr(s[2], env)
             if s[3][1] is not None or not (t in ("opt_id", "opt_u32", "opt_u64") or t.startswith("opt_struct:")):
                 raise GenError("`if let Some(..)` on a %s, or with a value, is outside the fragment" % t)
@@ -2746,16 +2939,17 @@ class GenR(Gen):
             if self.pure or not (self.tagged() or self.cur.get("selfmode") == "mut"):
                 raise GenError("an `if let` statement outside the body of a function that returns Result or updates self")
             carried = self.assigned2(s[3][0])
-            if len(carried) > 1 or any(c_ != "self" and c_ not in env for c_ in carried):
-                raise GenError("an `if let` block that assigns more than one variable of the enclosing block is outside the fragment")
+            if any(c_ != "self" and c_ not in env for c_ in carried):
+                raise GenError("an `if let` block that assigns an unknown variable is outside the fragment")
             env_s = dict(env)
             env_s[self.binder(s[1], env=env)] = {"opt_id": "id", "opt_u32": "u32", "opt_u64": "u64"}.get(t) or "struct:" + t[11:]
             self.rebound.add(s[1])
-            ret = ("Val (OkR %s)" if self.tagged() else "Val %s") % (carried[0] if carried else "tt")
+            val_, pat_ = self.carry(carried)
+            ret = ("Val (OkR %s)" if self.tagged() else "Val %s") % val_
             self.depth += 1
             some_t = self.stmts(s[3][0], env_s, lambda e2: ret)
             self.depth -= 1
-            x = carried[0] if carried else self.fresh()
+            x = pat_ or self.fresh()
             return self.emit_binds(b, "%s %s (match %s with\n| None => %s\n| Some %s => (%s)\nend) ;;\n%s" % (
                 x, "<-?" if self.tagged() else "<-", c, ret, s[1], some_t, self.stmts(rest, env, k)))
         if kind == "iflet_tuple":
@@ -2855,18 +3049,24 @@ class GenR(Gen):
                     self.use_opaque("iter_order", "ordfn")
                     v = "(iter_order %s)" % v          # a hash set is visited in an order the code does not choose
                 carried = self.assigned2(body)
-                if len(carried) > 1 or any(c_ not in env for c_ in carried):
-                    raise GenError("a loop that assigns more than one variable of the enclosing block is outside the fragment")
+                if any(c_ not in env for c_ in carried):
+                    raise GenError("a loop that assigns an unknown variable is outside the fragment")
                 env_b = dict(env)
                 env_b[self.binder(var, env=env)] = "id"
                 self.rebound.add(var)
-                ret = "Val (OkR %s)" % carried[0] if carried else "Val (OkR tt)"
+                val_, pat_ = self.carry(carried)
+                ret = "Val (OkR %s)" % val_
+                saved_al = dict(self.aliases)
                 self.depth += 1
                 inner = self.stmts(body, env_b, lambda e2: ret)
                 self.depth -= 1
-                if carried:
+                self.aliases = saved_al
+                if len(carried) == 1:
                     return self.emit_binds(b, "%s <-? fold_r (fun %s %s =>\n%s) %s %s ;;\n%s" % (
                         carried[0], carried[0], var, inner, v, carried[0], self.stmts(rest, env, k)))
+                if carried:
+                    return self.emit_binds(b, "%s <-? fold_r (fun st_ %s => let %s := st_ in\n%s) %s %s ;;\n%s" % (
+                        pat_, var, pat_, inner, v, val_, self.stmts(rest, env, k)))
                 x = self.fresh()
                 return self.emit_binds(b, "%s <-? fold_r (fun _ %s =>\n%s) %s tt ;;\n%s" % (x, var, inner, v, self.stmts(rest, env, k)))
             if it[0] == "ref":
@@ -2922,6 +3122,48 @@ class GenR(Gen):
         fn = self.coq_fn.get((self.validator, name), "gen_%s" % name)
         return "%s prof warn policy" % fn if self.policy_struct else "%s prof warn" % fn
 
+    def alias_source(self, e):
+        """self.F.get_mut(&k) | self.F.get_mut(&k).expect("..") | self.F.entry(k).or_insert_with(|| v) -> (kind, F, key, init)"""
+        if not self.cur.get("as_state") or not isinstance(e, tuple) or e[0] != "mcall":
+            return None
+        if e[2] == "expect" and len(e[3]) == 1 and e[3][0][0] == "str":
+            inner = self.alias_source(e[1])
+            return ("expect",) + inner[1:] if inner is not None and inner[0] == "get_mut" else None
+        if e[2] == "get_mut" and len(e[3]) == 1 and e[1][0] == "field" and e[1][1] == ("var", "self"):
+            return ("get_mut", e[1][2], e[3][0], None)
+        if e[2] == "or_insert_with" and len(e[3]) == 1 and e[3][0][0] == "closure" and not e[3][0][1] and e[1][0] == "mcall" \
+                and e[1][2] == "entry" and len(e[1][3]) == 1 and e[1][1][0] == "field" and e[1][1][1] == ("var", "self"):
+            return ("entry", e[1][1][2], e[1][3][0], e[3][0][2])
+        return None
+
+    def is_alias_update(self, mc):
+        """x.m(..) for a `&mut self` method m of the struct of x (x: a local standing for a map entry)"""
+        return self.cur.get("as_state") and mc[1][1] != "self" and any(
+            (sn, mc[2]) in self.methods2 and self.methods2[(sn, mc[2])]["selfmode"] == "mut" for sn in self.structs)
+
+    def assigned_alias(self, ss, x):
+        for st in ss:
+            if st[0] == "assign" and st[1][0] == "field" and st[1][1] == ("var", x):
+                return True
+            if st[0] == "expr" and st[1][0] == "mcall" and st[1][1] == ("var", x) and self.is_alias_update(st[1]):
+                return True
+            for sub in st[1:]:
+                if isinstance(sub, tuple) and len(sub) == 2 and isinstance(sub[0], list) and self.assigned_alias(sub[0], x):
+                    return True
+        return False
+
+    def bind_alias(self, x, src, env):
+        """-> (binds, text of the value of the entry as an option, struct name, key text)"""
+        kind, fld, keyex, init = src
+        ft = dict(self.structs[self.owner]).get(fld, "")
+        if not ft.startswith("map:struct:"):
+            raise GenError("self.%s is not a map of structs" % fld)
+        sn = ft[11:]
+        bk, kc, tk = self.expr(keyex, env)
+        if tk != "id" or bk:
+            raise GenError("the key of self.%s must be an opaque value" % fld)
+        return sn, kc, "(map_get %s %s)" % (self.proj(self.owner, fld, "self"), kc), fld
+
     def logging_ok(self, e, env):
         """debug!/trace!/info!/warn!/dbgvals! do not evaluate their arguments unless the level is enabled and have no
         effect on the answer.  policy_log! formats its message whatever the level: its arguments must be variables."""
@@ -2958,6 +3200,49 @@ class GenR(Gen):
             raise GenError("fn %s: more than one updated `&mut` parameter, or one in a function that does not return Result<(), _>" % m["name"])
         if muts:
             m["state_param"] = muts[0]
+        self.aliases = {}
+        m.pop("as_state", None)
+        if m["selfmode"] == "mut" and owner != self.validator and (owner, m["name"]) in self.state_methods:
+            # state-passing: the updated record (and the value) is the Ok of a computation that cannot return errors
+            if m["ret"] not in ("unit", "bool"):
+                raise GenError("fn %s: a state-passing method with a value of type %s is outside the fragment" % (m["name"], m["ret"]))
+            m["as_state"] = True
+            env = {}
+            for x, t in m["params"]:
+                env[self.binder(x)] = t
+            env["self"] = "struct:" + owner
+            ss_, tail_ = m["body"]
+
+            def kk(env2):
+                if m["ret"] == "unit":
+                    if tail_ is not None:
+                        raise GenError("fn %s: a value at the end of a function without a value" % m["name"])
+                    return "Val (OkR self)"
+                bb, cc, tt_ = self.expr(tail_, env2, m["ret"])
+                if tt_ != m["ret"]:
+                    raise GenError("fn %s returns %s, tail expression has %s" % (m["name"], m["ret"], tt_))
+                return self.emit_binds(bb, "Val (OkR (self, %s))" % cc)
+            body = self.stmts(ss_, env, kk)
+            self.sig_opaque[(owner, m["name"])] = list(self.opaque_used)
+            head = ["(prof : profile)"]
+            if any(t.startswith("dyn:Validator") for _, t in m["params"]):
+                head += ["(warn : string -> bool)"] + \
+                        (["(policy : %s)" % self.coq_type("struct:" + self.policy_struct)] if self.policy_struct else [])
+            head += ["(%s : %s)" % (pn, self.coq_type(pt)) for pn, pt in self.opaque_used] + \
+                    ["(self : %s)" % self.coq_type("struct:" + owner)] + ["(%s : %s)" % (x, self.coq_type(t)) for x, t in m["params"]]
+            st = self.coq_type("struct:" + owner)
+            rt = "(result %s)" % st if m["ret"] == "unit" else "(result (%s * %s))" % (st, self.coq_type(m["ret"]))
+            return "Definition gen_%s_%s %s : trap %s :=\n%s." % (owner, m["name"], " ".join(head), rt, indent(body))
+        if m["selfmode"] == "free" and owner != self.validator:
+            # an associated function
+            env = {}
+            for x, t in m["params"]:
+                env[self.binder(x)] = t
+            body = self.block_value(m["body"], env, m)
+            self.sig_opaque[(owner, m["name"])] = list(self.opaque_used)
+            head = ["(prof : profile)"] + ["(%s : %s)" % (pn, self.coq_type(pt)) for pn, pt in self.opaque_used] + \
+                   ["(%s : %s)" % (x, self.coq_type(t)) for x, t in m["params"]]
+            return "Definition gen_%s_%s %s : trap %s :=\n%s." % (owner, m["name"], " ".join(head), self.coq_type(m["ret"]), indent(body))
         if m["selfmode"] == "mut" and owner != self.validator and m["ret"] == "unit":
             # a `&mut self` method of a struct without a value: the updated record is the value
             env = {}
@@ -3579,13 +3864,16 @@ def _generate_node_payments(repo):
     known_cp, structs_cp, _ = policy_decls(core)
     known = dict(known_cp)
     known.update({"RoutedPayment": "struct:RoutedPayment", "PaymentState": "struct:PaymentState", "NodeState": "struct:NodeState",
-                  "BalanceDelta": "struct:BalanceDelta", "UnorderedSet": "path", "Vec": "path"})
+                  "BalanceDelta": "struct:BalanceDelta", "UnorderedSet": "path", "Vec": "path", "OrderedMap": "path",
+                  "PaymentPreimage": "path", "PaymentHash": "path", "Sha256Hash": "path"})
     own = ["RoutedPayment", "PaymentState", "NodeState"]
     structs = {n: struct_fields(nd, n, skip_unknown=True, known=known) for n in own}
     structs["BalanceDelta"] = [("0", "u64"), ("1", "u64")]
-    structs["SimplePolicy"] = structs_cp["SimplePolicy"]
-    structs["PolicyDevFlags"] = structs_cp["PolicyDevFlags"]
-    plan = [("RoutedPayment", "is_no_incoming", nd, "impl RoutedPayment", "node.rs"),
+    for n_ in ("SimplePolicy", "PolicyDevFlags", "CommitmentInfo2", "HTLCInfo2"):
+        structs[n_] = structs_cp[n_]
+    plan = [("RoutedPayment", "new", nd, "impl RoutedPayment", "node.rs"),
+            ("RoutedPayment", "is_fulfilled", nd, "impl RoutedPayment", "node.rs"),
+            ("RoutedPayment", "is_no_incoming", nd, "impl RoutedPayment", "node.rs"),
             ("RoutedPayment", "is_no_outgoing", nd, "impl RoutedPayment", "node.rs"),
             ("RoutedPayment", "updated_incoming_outgoing", nd, "impl RoutedPayment", "node.rs"),
             ("RoutedPayment", "incoming_outgoing", nd, "impl RoutedPayment", "node.rs"),
@@ -3593,7 +3881,10 @@ def _generate_node_payments(repo):
             ("RoutedPayment", "apply", nd, "impl RoutedPayment", "node.rs"),
             ("SimpleValidator", "validate_payment_cltv", sv, "impl Validator for SimpleValidator", "policy/simple_validator.rs"),
             ("SimpleValidator", "enforce_balance", sv, "impl Validator for SimpleValidator", "policy/simple_validator.rs"),
-            ("NodeState", "validate_payments", nd, "impl NodeState", "node.rs")]
+            ("NodeState", "validate_payments", nd, "impl NodeState", "node.rs"),
+            ("NodeState", "apply_payments", nd, "impl NodeState", "node.rs"),
+            ("NodeState", "htlc_fulfilled", nd, "impl NodeState", "node.rs"),
+            ("NodeState", "is_forwarded_payment_prunable", nd, "impl NodeState", "node.rs")]
     methods, texts = {}, {}
     for owner, n, src, header, _ in plan:
         texts[(owner, n)] = method_source(src, None, n, header=header)
@@ -3601,8 +3892,13 @@ def _generate_node_payments(repo):
     bal = P(lex(method_source(sv, None, "validate_payment_balance", header="impl Validator for SimpleValidator"))).fn()
     g = GenR(structs, {}, methods, {}, {}, [], "SimpleValidator", "SimplePolicy", known)
     cp = "CommitmentPolicyGen."
-    g.coq_struct = {n: (cp + n, cp + n) for n in ("SimplePolicy", "PolicyDevFlags")}
-    g.new_fns = {"UnorderedSet::new": ("[]", "set"), "Vec::new": ("[]", "vec_id")}
+    g.coq_struct = {n: (cp + n, cp + n) for n in ("SimplePolicy", "PolicyDevFlags", "CommitmentInfo2", "HTLCInfo2")}
+    g.new_fns = {"UnorderedSet::new": ("[]", "set"), "Vec::new": ("[]", "vec_id"), "OrderedMap::new": ("[]", "empty")}
+    g.state_methods = {("NodeState", "apply_payments"), ("NodeState", "htlc_fulfilled")}
+    ex = lambda txt: P(lex(txt) + [("eof", "")], known).expr()
+    # values the node obtains from other crates: parameters of the translation
+    g.opaque = [(ex("PaymentPreimage([0; 32])"), {}, "dummy_preimage", "id"),
+                (ex("PaymentHash(Sha256Hash::hash(&preimage.0).to_byte_array())"), {"preimage": "id"}, "payment_hash_of_preimage", "id")]
     pol_args = " ".join("(%sSimplePolicy_%s policy)" % (cp, f) for f in pay["policy_fields"])
     g.validator_calls = {
         "validate_payment_balance": ("PaymentsGen.gen_validate_payment_balance prof warn " + pol_args, bal, "bool"),
